@@ -383,8 +383,20 @@ func run(c *rig.Ctx) {
 		w.tick(1 + int(i%3))
 		for _, a := range plain {
 			v := r.U8()
+			if a == 0xff4b || a == 0xff4a {
+				v = r.Pick8([]uint8{0, 1, 3, 6, 7, 166, 167, 200, 255, r.U8()}) // window positions off both ends
+			}
 			w.write(a, v)
 			w.check(a, fmt.Sprintf("%d(+%d) cycles after LCD-on / timer start (LCD switched off first: %v): second write %02X to %04X", off, 1+int(i%3), lcdOffFirst, v, a))
+		}
+		// ... and they still hold these values after the video hardware has drawn with them for
+		// two lines (window and objects enabled in every other case)
+		if !lcdOffFirst && off%2 == 1 {
+			w.write(0xff40, 0xb3)
+		}
+		w.tick(2*114 + 7)
+		for _, a := range plain {
+			w.check(a, fmt.Sprintf("%d cycles after LCD-on: two lines after the second write to %04X", off, a))
 		}
 		// stopping the timer at this very offset (possibly in the middle of an overflow/reload)
 		// leaves TIMA and TMA as plain latches from then on
